@@ -10,6 +10,15 @@ open Generated
 /-- `EncodeObjectKey(userKey, revision)`: magic ++ key ++ split ++ be64 rev. -/
 def encode (k : Bytes) (r : Nat) : Bytes := magic ++ (k ++ splitByte :: be64 r)
 
+/-- `backend.encodeRangeBound` (pkg/backend/range.go, /repo 146f0bb): how `List`, `Count` and `GetPartitions`
+translate a raw range bound into the internal key space. A bound of the form `K ++ [0]` — what etcd clients
+send for "just after K": the continue key of a paginated list, the end of a single-key range — is encoded
+just after the last possible version of `K` (`EncodeObjectKey(K, MaxUint64) ++ [0]`), because the plain
+encoding `encode (K ++ [0]) 0` sorts BEFORE the versions of `K` (byte 0 is smaller than the split byte:
+`KB.C10.old_bound_encoding_defect`). Every other bound is the index key of the raw bound, as before. -/
+def encodeBound (raw : Bytes) : Bytes :=
+  if raw.getLast? = some 0 then encode raw.dropLast (2 ^ 64 - 1) ++ [0] else encode raw 0
+
 /-- Result of `Decode`; `panic` marks the inputs on which the Go code indexes out of range. -/
 inductive Dec where
   | ok (k : Bytes) (r : Nat)
